@@ -202,6 +202,27 @@ theorem txBody_roundtrip (c : Cfg) (b : TxBody) (bs : Bytes)
     (henc : encTxBody c.key c.ver .full b = .ok bs) (hwf : b.WF c) (rest : Bytes) :
     decTxBody c (bs ++ rest) = .ok (b.norm c, rest) := decTxBody_enc c b bs henc hwf rest
 
+/-- The EMPTY body — no inputs (`Inputs::default()` = `CommitOnly([])`), no outputs, no kernels — is
+well-formed under every configuration (every protocol version, any weight limit), is written as the
+three zero counts and nothing else, and reads back (as `FeaturesAndCommit([])` at version ≤ 2: `norm`). -/
+theorem txBody_empty_roundtrip (c : Cfg) (rest : Bytes) :
+    ({ inputs := .commitOnly [], outputs := [], kernels := [] } : TxBody).WF c
+    ∧ encTxBody c.key c.ver .full { inputs := .commitOnly [], outputs := [], kernels := [] } = .ok (List.replicate 24 0)
+    ∧ decTxBody c (List.replicate 24 0 ++ rest)
+        = .ok (({ inputs := .commitOnly [], outputs := [], kernels := [] } : TxBody).norm c, rest) := by
+  have hwf : ({ inputs := .commitOnly [], outputs := [], kernels := [] } : TxBody).WF c := by
+    refine ⟨?_, fun _ h => (List.not_mem_nil h).elim, List.Pairwise.nil, fun _ h => (List.not_mem_nil h).elim,
+      List.Pairwise.nil, Nat.zero_le _, Nat.zero_le _, Nat.zero_le _, Nat.zero_le _⟩
+    simp only [Inputs.WF]
+    split
+    · trivial
+    · exact ⟨fun _ h => (List.not_mem_nil h).elim, List.Pairwise.nil⟩
+  have henc : encTxBody c.key c.ver .full { inputs := .commitOnly [], outputs := [], kernels := [] }
+      = .ok (List.replicate 24 0) := by
+    simp [encTxBody, encInputs, Inputs.len, writeMulti]
+    decide
+  exact ⟨hwf, henc, decTxBody_enc c _ _ henc hwf rest⟩
+
 theorem txBody_reencode (c : Cfg) (b : TxBody) (hwf : b.WF c) :
     encTxBody c.key c.ver .full (b.norm c) = encTxBody c.key c.ver .full b := encTxBody_norm c b hwf
 
